@@ -12,6 +12,7 @@ func init() {
 		Rule: "one state = one feasible path of the real cmd/commands + helpers code over the stubbed environment (symbolic report bytes, symbolic prior content of the output file, symbolic library-failure flag); every path is distinct (different decision vector)",
 		Harnesses: func(tier string) []HarnessSpec {
 			return []HarnessSpec{
+				{Pkg: "cmd/commands", Fn: "VerifC18LargeFilesNative", NativeOnly: true, Bounds: map[string]any{"files": "data of 1.2 MiB (50 nodes with 25 kB texts), a profile with a 3 MiB comment, data followed by 1 MiB of blanks: native only, no solver (sizes the byte-wise file model does not reach)"}},
 				{Pkg: "internal/validator", Fn: "VerifC18LibrarySilent", Native: "VerifC18LibrarySilentNative", Reach: []string{"returned"}, Bounds: map[string]any{"profiles": "the usual one, one with level names that have no definition and a validation nobody lists, one without targetClass, one that is not YAML", "entry_points": "GenerateRego, Validate, ProcessProfile+ValidateCompiled, ProcessInput", "stage_faults": "every assignment"}},
 				{Pkg: "cmd/commands", Fn: "VerifC18Validate", CrossCheck: true, Native: "VerifC18ValidateNative", Reach: []string{"lib-failed", "printed", "readonly", "wrote-file"},
 					Bounds: map[string]any{"report_len": "1..3 symbolic bytes", "prior_len": "0..5 symbolic bytes", "prior_state": "absent|present|read-only"}},
@@ -70,6 +71,7 @@ func init() {
 		Rule: "one state = one feasible path for one entry point x one profile text (valid / YAML error / structure error / empty document / unknown prefix) x one assignment of the symbolic stage-fault flags; the channel is a buffered Go channel executed natively by the interpreter",
 		Harnesses: func(tier string) []HarnessSpec {
 			return []HarnessSpec{
+				{Pkg: "pkg", Fn: "VerifC11LargeDataNative", NativeOnly: true, Bounds: map[string]any{"data": "17 MiB and 33 MiB texts (a document followed by white space), text and compiled entry point: native only, no solver"}},
 				{Pkg: "pkg", Fn: "VerifC11Events", CrossCheck: true, Native: "VerifC11EventsNative", Reach: []string{"returned", "compile-ok", "compile-failed", "ends-in-start"}, Bounds: map[string]any{"entry_points": 5, "profiles": 5}},
 				{Pkg: "pkg", Fn: "VerifC11Reuse", Native: "VerifC11ReuseNative", Reach: []string{"two-requests"}, Bounds: map[string]any{"requests": 2, "profiles": 2, "channel_kept_in": "one variable re-made per request | one variable per request", "entry_points": 3, "stage_faults": "per request"}},
 				{Pkg: "pkg", Fn: "VerifC11NilChannel", Reach: []string{"returned"}},
@@ -235,6 +237,7 @@ func init() {
 		Rule: "one state = one feasible path of an entry point (CompileProfile, Validate, compile+ValidateCompiled, ValidateWithConfiguration) x profile text x stub outcomes, executed with every store checked against the set of locations reachable from package-level variables",
 		Harnesses: func(tier string) []HarnessSpec {
 			return []HarnessSpec{
+				{Pkg: "pkg", Fn: "VerifC10ManyCallsNative", NativeOnly: true, Bounds: map[string]any{"calls": "48 calls from text and 48 through one compiled profile started at once, one minute to return: native only, no solver, one schedule per run"}},
 				{Pkg: "pkg", Fn: "VerifC10WriteSet", Native: "VerifC10WriteSetNative", Race: true, Reach: []string{"returned"}, Bounds: map[string]any{"entry_points": 4, "profiles": "5 small (valid and failing) + 1 using most of the profile language with declared prefixes"}},
 			}
 		},
